@@ -88,7 +88,10 @@ def run(ctx):
     for iv, v in enumerate(scen[:nscen]):
         # in every third scenario the third spectrum is a calm record (all zeros): undefined ratios (0/0) at one position must not
         # change what happens at the others
-        spectra = spectra0 if iv % 3 else [spectra0[0], spectra0[1], np.zeros_like(spectra0[2])]
+        # in every other third it is a near-calm record seven orders of magnitude below its neighbours: a guard or threshold taken
+        # relative to the largest spectrum of the dataset must not decide what happens to it
+        spectra = ([spectra0[0], spectra0[1], np.zeros_like(spectra0[2])] if iv % 3 == 0 else
+                   [spectra0[0], spectra0[1], spectra0[2] * 2.0 ** -23] if iv % 3 == 1 else spectra0)
         shape, dims = v["shape"], v["dims"]
         order = ctx.rng.choice(("lead_first", "spec_first"))
         dtype = ctx.rng.choice(("float64", "float32"))
